@@ -180,9 +180,8 @@ class CouplingLevyCopulaSimulation:
 
             cell_left = grid.middle(grid.left_point(position), value)
             cell_right = grid.middle(value, grid.right_point(position))
-            total_mass = mass(cell_left, cell_right)
 
-            probability = 0
+            corners = []
             for p in product([-1, 1], repeat=len(axis_coordinates)):
                 p_left_value, p_right_value = list(cell_left), list(cell_right)
                 res = list(value)
@@ -192,16 +191,18 @@ class CouplingLevyCopulaSimulation:
                     else:
                         p_left_value[k] = value[k]
                     res[k] = grid.axes[k][position[k] + p_k]
-                p_mass = mass(p_left_value, p_right_value)
+                corners.append((max(mass(p_left_value, p_right_value), 0.0), res))
+
+            # normalise with the sum of the masses of the corners: it is equal to the mass of the fine cell up to
+            # numerical errors, and the probabilities then sum to one
+            total_mass = sum(p_mass for p_mass, _ in corners)
+            probability = 0
+            for p_mass, res in corners:
                 probability += p_mass / total_mass
                 if u <= probability:
                     return np.array(res)
 
-            raise ValueError(
-                "couplinglevycopula::__coupling_state -> Numerical error? probability={:6f}, u={:6f}".format(
-                    probability, u
-                )
-            )
+            return np.array(corners[-1][1])
 
     def _coupling_states_for_a_slice(self, slice_fine_states: np.array):
         if len(slice_fine_states):
